@@ -242,6 +242,35 @@ def run(cx, chk):
                         if a_[0] == "discr" and is_call(a_[1], "run_recursively") and v_ == 1 and l.kind == "return" and l.ret is not None and l.ret[0] == "agg" and l.ret[2] == "Err":
                             s_prop_dir = True
                 single, ext, prop = single or s_single, ext or s_ext, prop or (s_prop_file and s_prop_dir)
+        # directory mode derives every destination from the file's own path: nothing reachable from run_recursively reads the
+        # explicit destination, which is documented as "only used if running on a single file"
+        reach = set()
+        work = [rp[0]]
+        while work:
+            q = work.pop()
+            if q in reach or q not in cg.fns or "mir" not in cg.fns[q]:
+                continue
+            reach.add(q)
+            qb = cx.body(cg, q)
+            for _, t_ in qb.calls():
+                fq = t_["func"]
+                if not fq.get("indirect"):
+                    tq = fq.get("resolved") or fq["path"]
+                    if tq in cg.fns and "buildscript" in tq:
+                        work.append(tq)
+            for q2 in cg.fns:
+                if q2.startswith(q + "::{closure"):
+                    work.append(q2)
+        import json as _json
+        for q in sorted(reach):
+            qb = cx.body(cg, q)
+            for i in sorted(qb.reach):
+                if '"name": "destination_path"' in _json.dumps(qb.blocks[i]):
+                    chk.violation("C18.walk", "directory mode reads destination_path in %s" % short(q),
+                                  "%s is reachable from run_recursively and reads the explicit destination: in directory mode every grammar is then checked "
+                                  "against and written to that one file - the sibling .rs files are never created or refreshed although run() returns Ok" % short(q),
+                                  cx.site(qb, i))
+                    break
         if single and ext and prop:
             chk.ok("C18.walk", "run_recursively", {"per_file": "run_on_single_file(source, source.with_extension(\"rs\"))", "filter": "extension == \"ebnf\"", "errors": "propagated (try_for_each / ?)"})
         else:
